@@ -488,6 +488,16 @@ func famCli(tr *Trace, id *int, scratch, bin, behaviours string) int {
 		os.RemoveAll(root)
 		Materialise(root, nodes)
 		y := c.YAML(root)
+		other := map[string]string{"deb": "rpm", "rpm": "apk", "apk": "ipk", "ipk": "deb", "archlinux": "deb"}
+		built := f
+		if targetKind == "file_other_ext" && !withP {
+			built = other[f]
+		}
+		if fault == "missing_key" { // signing is configured, the key file is not there (formats that do not sign are unaffected)
+			cs := *c
+			setSigning(&cs, built, filepath.Join(work, "no-such-dir"))
+			y = cs.YAML(root)
+		}
 		cfgPath := filepath.Join(work, "nfpm.yaml")
 		// the file the tool reads spells some values as references to the environment it is started in (a documented
 		// expandable field, a relation, a content source that opts in); the reference build below uses the literal values
@@ -500,11 +510,6 @@ func famCli(tr *Trace, id *int, scratch, bin, behaviours string) int {
 		must(os.WriteFile(cfgPath, []byte(yCli), 0o644))
 		// the reference bytes: a library build of the same configuration, for the packager the tool is to use - the one given
 		// with -p whatever the target is called, otherwise the one the target's extension names (Cli!Built)
-		other := map[string]string{"deb": "rpm", "rpm": "apk", "apk": "ipk", "ipk": "deb", "archlinux": "deb"}
-		built := f
-		if targetKind == "file_other_ext" && !withP {
-			built = other[f]
-		}
 		var ref bytes.Buffer
 		refErr := packageWith(y, built, &ref)
 		refName := ""
@@ -644,11 +649,11 @@ func famCli(tr *Trace, id *int, scratch, bin, behaviours string) int {
 			exitClass = 1
 		}
 		tr.Emit(*id, []M{{"ev": "case", "id": *id, "fam": "cli"},
-			{"ev": "cli", "fmt": f, "target_kind": targetKind, "fault": fault, "with_p": withP, "exit": exit,
+			{"ev": "cli", "fmt": f, "built": built, "target_kind": targetKind, "fault": fault, "with_p": withP, "exit": exit,
 				"created_line": rel(created), "expected_path": rel(expPath), "file_at_expected": atExp, "bytes_equal_library_build": same,
 				"out_files": listFiles(outDir), "cwd_files": listFiles(cwd), "output": safeStr(rel(strings.ReplaceAll(outS, root, "$ROOT"))),
 				"mentions_cause": strings.Contains(outS, "postinstall") && fault == "missing_script" || strings.Contains(outS, "app.conf") && fault == "missing_source" ||
-					strings.Contains(outS, "unknown_key") && fault == "bad_config" || fault == "devfull" && (strings.Contains(outS, "no space") || strings.Contains(outS, "write")),
+					strings.Contains(outS, "unknown_key") && fault == "bad_config" || fault == "missing_key" && (strings.Contains(outS, "no-such-dir") || strings.Contains(outS, "sign")) || fault == "devfull" && (strings.Contains(outS, "no space") || strings.Contains(outS, "write")),
 				"mentions_packager": strings.Contains(outS, "packager"),
 				"conventional_name": refName, "tlc": tl, "obs_exit": exitClass, "obs_where": obsWhere, "obs_fs": obsFs},
 			{"ev": "endcase"}})
@@ -681,6 +686,9 @@ func famCli(tr *Trace, id *int, scratch, bin, behaviours string) int {
 			}
 		}
 		run(f, "devfull", "devfull", true, nil)
+		for _, tk := range []string{"file", "dir", "empty"} {
+			run(f, tk, "missing_key", true, nil)
+		}
 	}
 	return n
 }
